@@ -134,7 +134,11 @@ impl GatewayBinder {
             gw: None,
             ring: KeyRing::new(),
             q: q_of(scale["Q"].as_str().unwrap_or("1")),
-            qt: scale["Qt"].as_u64().unwrap_or(1),
+            qt: match &scale["Qt"] {
+                J::String(t) if t == "2p40" => 1u64 << 40,
+                J::String(t) => t.parse().unwrap_or(1),
+                x => x.as_u64().unwrap_or(1),
+            },
             t0: scale["t0"].as_u64().unwrap_or(1_000_000),
             now: init["now"].as_u64().unwrap_or(0),
             owner: jstr(init, "owner"),
